@@ -43,3 +43,7 @@ def handle (args : List Json) : Json :=
   | _ => jerr "bad-args"
 
 end Driver.C24
+
+namespace Driver.C24
+def commands : List (String × (List Lean.Json → Lean.Json)) := [("lru", handle)]
+end Driver.C24
